@@ -11,7 +11,7 @@ void harness(void) {
   VERIF_ALLOC_RESET();
   VERIF_REC_RESET();
   /* the streaming decoder must not touch the allocator at all (C13) */
-  _cbor_malloc = v_malloc; _cbor_realloc = v_realloc; _cbor_free = v_free;
+  verif_bind_allocator();
   g_alloc_forbidden = true;
 
   size_t in_size = nondet_size();
